@@ -83,7 +83,7 @@ func (w *world) observe(ctx contract.Context, spec *txSpec) map[string]*acctObs 
 	} else {
 		set = append(set, w.cfg.eoas[spec.from])
 		for _, a := range w.all {
-			if a.addr.Equal(spec.to) && !a.addr.Equal(w.cfg.eoas[spec.from].addr) {
+			if a.addr.Equal(spec.to) && !a.addr.Equal(w.cfg.eoas[spec.from].addr) && !spec.lazy {
 				set = append(set, a)
 			}
 		}
@@ -143,6 +143,9 @@ func (m *modelState) total() *big.Int {
 // applyScript runs a scripted transaction on the model and returns the values its reads must see.
 func (m *modelState) applyScript(sc *scriptSpec) (reads []int64, acc uint64) {
 	acc = sc.seed
+	if sc.abort {
+		return
+	}
 	for i, op := range sc.ops {
 		if op.write {
 			acc = mix(acc, int64(i))
